@@ -24,7 +24,7 @@ func genExpo(t *rapid.T) *ExpoCase {
 	} else {
 		w = GenExposureWorld(t)
 	}
-	return &ExpoCase{W: w, Tape: rapid.SliceOfN(rapid.Uint32Range(0, 1<<20), 0, 600).Draw(t, "tape")}
+	return &ExpoCase{W: w, Tape: rapid.SliceOfN(rapid.Uint32Range(0, 1<<20), 200, 600).Draw(t, "tape")}
 }
 
 func xentryStr(e *XEntry) string {
@@ -149,6 +149,9 @@ func checkC06(c *ExpoCase, st *VStats) *VFailure {
 					if !e.Entire {
 						nontrivial = true
 					}
+					if len(H.Ports) > 0 {
+						st.Class("hypothetical pod declares named ports")
+					}
 					res := H
 					if dir == "Ingress" {
 						res = W
@@ -242,6 +245,11 @@ func checkC07(c *ExpoCase, st *VStats) *VFailure {
 				}
 				if !ok {
 					continue
+				}
+				if len(H.Ports) > 0 {
+					st.Class("hypothetical pod declares named ports")
+				} else {
+					st.Class("hypothetical pod without ports")
 				}
 				res := H
 				if dir == "Ingress" {
